@@ -9,11 +9,15 @@ Local Open Scope N_scope.
 
 Definition io_recv (waitall : bool) (n : N) (script : list sock_ev) (stream : bytes)
   : option (bytes * bytes * list sock_ev) :=
-  let o := receive_data errno_retries cap_nat waitall (N.to_nat n) script stream in
-  match r_res o with
-  | ROk d => Some (d, r_stream o, r_script o)
-  | _ => None
-  end.
+  (* more bytes requested than the stream will ever hold: the read cannot succeed (C17_recv_exact), whatever
+     the socket does; decided on N so that a declared size of 2^30 is never turned into a unary nat *)
+  if Nlen stream <? n then None
+  else
+    let o := receive_data errno_retries cap_nat waitall (N.to_nat n) script stream in
+    match r_res o with
+    | ROk d => Some (d, r_stream o, r_script o)
+    | _ => None
+    end.
 
 Definition recv_stub_io (c : wcfg) (accepted : option (list N)) (unz : option bytes)
                         (waitall : bool) (script : list sock_ev) (stream : bytes)
